@@ -10,7 +10,7 @@ using namespace jsoncons;
 
 struct Desc { std::string kind; bool nan = false; bool isint = false; int sign = 0; std::string digits; };
 struct Named { json j; Desc d; };
-static json g_i1(int64_t(1)); static json g_obj_a1 = json::parse("{\"a\":1}"); static json g_arr1 = json::parse("[1]");
+static json g_null = json::null(); static json g_i1(int64_t(1)); static json g_obj_a1 = json::parse("{\"a\":1}"); static json g_arr1 = json::parse("[1]");
 
 static Desc I(const char* kind, bool neg, const char* digits) { Desc d; d.kind = kind; d.isint = true; d.sign = neg ? 1 : 0; d.digits = digits; return d; }
 static Desc K(const char* kind, bool nan = false) { Desc d; d.kind = kind; d.nan = nan; return d; }
@@ -69,6 +69,7 @@ static bool make(const std::string& n, Named& out) {
     else if (n == "arr_1_2") { out = {json::parse("[1,2]"), K("array")}; }
     else if (n == "arr_1d") { out = {json::parse("[1.0]"), K("array_d")}; }
     else if (n == "cref_i64_1") { out = {json(json_const_pointer_arg, &g_i1), I("int64", false, "1")}; }
+    else if (n == "cref_null") { out = {json(json_const_pointer_arg, &g_null), K("null")}; }
     else if (n == "cref_obj_a1") { out = {json(json_const_pointer_arg, &g_obj_a1), K("object")}; }
     else if (n == "ref_arr_1") { out = {json(json_pointer_arg, &g_arr1), K("array")}; }
     else return false;
